@@ -116,16 +116,18 @@ class World:
             gates=[self.gates[n] for n in e["gates"]],
             mprocesses=[self.mprocesses[n] for n in e["mprocesses"]],
             schedules=[[tuple(it) for it in s] for s in e["schedules"]],
+            seed_data=e.get("seed_data"),
         )
         t = pool["tomo"]
         tst = [self.states[n] for n in t["states"]]
         tpv = [self.povms[n] for n in t["povms"]]
         para = bool(t.get("para", True))
+        sd = t.get("seed_data")  # tomography objects built with a data seed re-seed the global state as a side effect
         self.tomo = {
-            "qst": StandardQst(tpv, on_para_eq_constraint=para),
-            "povmt": StandardPovmt(tst, num_outcomes=2, on_para_eq_constraint=para),
-            "qpt": StandardQpt(tst, tpv, on_para_eq_constraint=para),
-            "qmpt": StandardQmpt(tst, tpv, num_outcomes=2, on_para_eq_constraint=para),
+            "qst": StandardQst(tpv, on_para_eq_constraint=para, seed_data=sd),
+            "povmt": StandardPovmt(tst, num_outcomes=2, on_para_eq_constraint=para, seed_data=sd),
+            "qpt": StandardQpt(tst, tpv, on_para_eq_constraint=para, seed_data=sd),
+            "qmpt": StandardQmpt(tst, tpv, num_outcomes=2, on_para_eq_constraint=para, seed_data=sd),
         }
 
     def true_obj(self, t, name):
@@ -398,8 +400,9 @@ def gen_pool(rng):
     return {
         "vectors": [gen_vector(rng) for _ in range(nv)],
         "gens": [1000 + rng.randrange(1000) for _ in range(rng.randint(1, 3))],
-        "experiment": {"states": e_states, "povms": e_povms, "gates": e_gates, "mprocesses": e_mps, "schedules": sched_opts},
-        "tomo": {"states": rng.sample(["x0", "y0", "z0", "z1"], rng.randint(2, 4)), "povms": rng.sample(POVM_NAMES, rng.randint(1, 3)), "para": rng.random() < 0.5},
+        "experiment": {"states": e_states, "povms": e_povms, "gates": e_gates, "mprocesses": e_mps, "schedules": sched_opts, "seed_data": rng.choice([None, None, 0, 5])},
+        "tomo": {"states": rng.sample(["x0", "y0", "z0", "z1"], rng.randint(2, 4)), "povms": rng.sample(POVM_NAMES, rng.randint(1, 3)), "para": rng.random() < 0.5,
+                 "seed_data": rng.choice([None, None, 0, 7, 777])},
     }
 
 
@@ -561,6 +564,7 @@ def generate_record(seed, tier, opts):
         p_boundary = 0.0 if fault_free else rng.choice([0.0, 0.1, 0.25])
         p_twin = rng.choice([0.0, 0.1, 0.2])
         p_malformed = rng.choice([0.0, 0.05])
+        p_replace = 0.0 if fault_free else rng.choice([0.0, 0.05, 0.1])
         # swarm: a random subset of entry points gets most of the weight
         fav = set(rng.sample([e for e, _ in ENTRY_WEIGHTS], rng.randint(3, len(ENTRY_WEIGHTS))))
         entries = [(e, w * (3 if e in fav else 0.3)) for e, w in ENTRY_WEIGHTS]
@@ -593,6 +597,14 @@ def generate_record(seed, tier, opts):
                     steps[-1]["stream"] = {"k": "gen", "i": 0}
             elif r < p_fault + p_boundary + p_twin + p_malformed:
                 steps.append(gen_malformed(rng, pool))
+            elif r < p_fault + p_boundary + p_twin + p_malformed + p_replace:
+                what = rng.choice(["state", "state", "povm", "gate"])
+                name = rng.choice({"state": STATE_NAMES, "povm": POVM_NAMES, "gate": GATE_NAMES}[what])
+                steps.append({"op": "replace_in_experiment", "what": what, "i": rng.randrange(4), "name": name})
+                s = rng.randrange(len(pool["experiment"]["schedules"]))
+                steps.append({"op": "call", "entry": rng.choice(["exp_data", "exp_empi_seq", "exp_empi_seqs", "exp_dataset"]), "a": None, "stream": gen_stream(rng, pool)})
+                e2, a2 = gen_call(rng, pool, entries=[(steps[-1]["entry"], 1)])
+                steps[-1]["a"] = a2
             else:
                 if last_call is not None and rng.random() < 0.3:
                     entry, a = last_call  # same request again, other stream kind / other point of the history
@@ -656,6 +668,16 @@ class Run:
         d = self.stats[table]
         d[key] = d.get(key, 0) + n
 
+    def fresh_world(self):
+        """a newly built world; building it must not disturb the live world's process-global random state
+        (constructors given seed_data re-seed numpy's global state)."""
+        np_s, py_s = np.random.get_state(), pyrandom.getstate()
+        try:
+            return World(self.pool)
+        finally:
+            np.random.set_state(np_s)
+            pyrandom.setstate(py_s)
+
     # --- stream materialisation --------------------------------------------------------------
     def live_stream(self, entry, spec, a):
         k = spec["k"]
@@ -679,7 +701,7 @@ class Run:
     # --- one generation call with all oracles -------------------------------------------------
     def do_call(self, idx, entry, a, spec, crafted=None):
         sig = {"op": "call", "entry": entry, "stream": spec["k"] if crafted is None else "crafted"}
-        fresh = World(self.pool)
+        fresh = self.fresh_world()
         shape = expected_shape(fresh, entry, a)
         np0, py0 = _np_state(), pyrandom.getstate()
         np0_d, py0_d = _np_state_digest(np0), _py_digest()
@@ -756,7 +778,9 @@ class Run:
         if k == "gen":
             if _gen_digest(self.gens[spec["i"]]) != _gen_digest(self.shadows[spec["i"]]):
                 raise Violation("R2_shared_generator", f"{entry}: shared generator state after the call differs from the reference model's", {"step": idx, "entry": entry, "args": a}, sig)
-            if gens0[spec["i"]] == gens1[spec["i"]] and collision_bound(shape) < 1e-12:
+            # a non-degenerate random output cannot be produced without consuming the stream; a generator that is
+            # left where it was would make the next identical request return the same output with certainty
+            if gens0[spec["i"]] == gens1[spec["i"]] and collision_bound(shape) < 0.5:
                 raise Violation("R2_shared_generator", f"{entry}: the shared generator did not advance", {"step": idx, "entry": entry, "args": a}, dict(sig, state="not_advanced"))
         # ---- V2 accumulation (independent streams only)
         if k == "gen" or (k == "int" and self._first_use(entry, spec, a)):
@@ -848,7 +872,7 @@ class Run:
                 nums = st["nums"]
                 ps = [self.world.vectors[st["a"]["v"]]] if "v" in st["a"] else [self.world.vectors[i] for i in st["a"]["vs"]]
             elif op == "boundary_exp":
-                ps_all = [np.array(p, dtype=np.float64) for p in World(self.pool).exp.calc_prob_dists()]
+                ps_all = [np.array(p, dtype=np.float64) for p in self.fresh_world().exp.calc_prob_dists()]
                 r = pyrandom.Random(st["salt"])
                 if st["entry"] == "exp_data":
                     ps = [ps_all[st["a"]["sched"]]]
@@ -872,6 +896,26 @@ class Run:
         elif op == "malformed":
             self.kinds.append(["malformed", st["kind"]])
             self.malformed(idx, st)
+        elif op == "replace_in_experiment":
+            # experiment.states[i] = other_state  (list item assignment, as StandardQst.generate_empi_dist does on its copy).
+            # The recipe is updated too, so every fresh world built afterwards contains the new operation.
+            self.kinds.append(["replace_in_experiment", st["what"]])
+            e = self.pool["experiment"]
+            names = e[st["what"] + "s" if st["what"] != "mprocess" else "mprocesses"]
+            if not names:
+                return
+            i = st["i"] % len(names)
+            names[i] = st["name"]
+            w = self.world
+            if st["what"] == "state":
+                w.exp.states[i] = w.states[st["name"]]
+            elif st["what"] == "povm":
+                w.exp.povms[i] = w.povms[st["name"]]
+            else:
+                w.exp.gates[i] = w.gates[st["name"]]
+            self.bump("faults", "in_place_operation_replacement")
+            if self.compared_calls >= 1:
+                self.pending_fault = True
         else:
             raise ValueError(op)
 
